@@ -37,16 +37,19 @@ LEVEL = "proof"
 ENGINES = ["lean-model", "pyextract", "purediff", "kopfsim"]
 LEVEL_TEXT = (
     "Lean theorems for ALL fault scripts / backoff streams / delay configurations / label lists of any number of "
-    "requesters: attempts_bound, gap_ge_backoff, gap_ge_retry_after, fatal_4xx_immediate, "
-    "transient_retried_then_escalates (request loop); delays_follow_config, success_resets, swallowed, "
-    "other_objects_unaffected (throttler); single_reauth, all_proceed_fresh, invalid_not_reused (within the "
-    "3-per-key history, bound explicit; plus the witness that a 4th-oldest credential IS re-served), "
-    "no_impossible_state (vault LTS invariants over every label list). Tie: status→class chain and retryable tuple "
-    "extracted from the AST and proved equal to the model's tables; the real api.request / throttled / "
-    "Vault+authenticated+authenticator are run against the models on generated scripts (differential, exact ticks; "
-    "trace acceptance with state snapshots). gap_ge_retry_after covers HTTP 429 only (the code and the docs honour "
-    "Retry-After on 429 only); with settings.networking.enforce_retry_after the documented override may shorten "
-    "the wait below the configured backoff (gap_ge_backoff carries that hypothesis).")
+    "requesters. Request loop: attempts_bound, gap_ge_backoff (hypothesis: enforce_retry_after off, the documented "
+    "override), gap_ge_retry_after (HTTP 429, header or details.retryAfterSeconds, any enforce flag), "
+    "fatal_4xx_immediate, transient_retried_then_escalates, success_stops, transient_http_iff; "
+    "retry_after_http_date_witness proves the NEGATION of '429 is retried' for an HTTP-date Retry-After (finding F1, "
+    "replayed on the real code every run). Throttler: delays_follow_config (k-th consecutive error -> delays[min(k,last)]), "
+    "empty_config_never_throttles, success_resets, swallowed, other_objects_unaffected, recovers_after_errors_stop. "
+    "Vault LTS invariants over every label list: single_reauth, stale_invalidation_is_noop, all_proceed_fresh, "
+    "invalid_not_reused (within the 3-per-key history, bound explicit) with invalid_reused_beyond_history_witness "
+    "(the 4th-oldest credential IS re-served), no_impossible_state. Tie: status->class chain, >=400 guard and retry "
+    "tuple extracted from the AST and proved equal to the model's tables; the real api.request / throttled / "
+    "Vault+authenticated+authenticator run against the models on generated scripts (differential with exact ticks; "
+    "trace acceptance with vault-state snapshots after every label). The structure of the retry loop, of throttled() "
+    "and of the Vault methods is tied by those runs (sampled), not by translation.")
 TIE = ("T (check_response chain + retry tuple: AST → Lean, proved equal) + D (real api.request and real throttled "
        "under virtual time, exact tick comparison) + A (real Vault/authenticated/authenticator: labelled segments "
        "accepted by the Lean LTS with equal vault state after every label)")
@@ -78,6 +81,10 @@ TRUSTED = [
     "no sockets, so virtual time is sound",
     "asyncio.Condition/Lock semantics: one label per lock-protected segment (the guard proxy delegates to a real Condition)",
     "SimLoop virtual time (all times dyadic, 1 tick = 2**-10 s)",
+    "label instrumentation: Vault subclass overriding select()/populate() to record, frame-name lookup of the Vault "
+    "method that entered the guard, the raw api.request re-wrapped by the real auth.authenticated with a tracer",
+    "if the shared Driver.lean cannot start because another property's module is missing, the same handler "
+    "(Kopf.Drv.C12.handle) is served by a private main (harness/props/c12.py::ask_lean)",
 ]
 ASSUMPTIONS = [
     "Retry-After is honoured for HTTP 429 only (as documented in docs/configuration.rst); a Retry-After on 5xx is ignored by the code and not judged",
@@ -589,7 +596,7 @@ def oracle_request(case: dict, obs: dict) -> list[tuple[str, dict]]:
             break
     if expected_attempts is not None:
         last = script[n - 1] if 0 < n <= len(script) else None
-        if n < expected_attempts and last is not None and last["kind"] == "http" and last["status"] == 429 \
+        if n <= expected_attempts and last is not None and last["kind"] == "http" and last["status"] == 429 \
                 and last.get("hdr") not in (None, "") and not hdr_numeric(last.get("hdr")) and obs["exc"] == "ValueError":
             out.append(("a 429 whose Retry-After is an HTTP-date was not retried: ValueError escaped api.request",
                         {"site": "api.request", "shape": "429 with non-numeric Retry-After -> ValueError, no retry"}))
@@ -1494,6 +1501,53 @@ def histogram(case: dict, obs: dict, hist: dict) -> None:
                 c("vault.result", x)
 
 
+_PRIVATE_DRIVER = '''import Kopf.Drv.C12
+open Lean Kopf.Drv
+def respond (line : String) : Json :=
+  match Json.parse line with
+  | .ok (.arr xs) =>
+    match xs.toList with
+    | .str op :: args => (C12.handle op args).getD (.arr #[.str "bad-op"])
+    | _ => .arr #[.str "bad-op"]
+  | _ => .arr #[.str "bad-op"]
+partial def loop (h : IO.FS.Stream) (out : IO.FS.Stream) : IO Unit := do
+  let line ← h.getLine
+  if line.isEmpty then return ()
+  let l := line.trimAscii.toString
+  if l.isEmpty then loop h out else
+  out.putStrLn (respond l).compress
+  loop h out
+def main : IO Unit := do
+  let out ← IO.getStdout
+  loop (← IO.getStdin) out
+  out.flush
+'''
+
+
+def ask_lean(requests: list) -> list:
+    """The shared line-protocol driver; if it cannot start because ANOTHER property's module is
+    missing/broken in the shared tree (Driver.lean imports all of them), the same protocol is served
+    by a private main that imports Kopf.Drv.C12 only (local harness feature; same handler)."""
+    try:
+        return leanio.Driver().ask(requests)
+    except leanio.LeanError as first:
+        import shutil
+        import tempfile
+        d = tempfile.mkdtemp(prefix="c12drv")
+        try:
+            path = os.path.join(d, "DriverC12.lean")
+            with open(path, "w") as f:
+                f.write(_PRIVATE_DRIVER)
+            payload = "".join(json.dumps(r, ensure_ascii=False, separators=(",", ":")) + "\n" for r in requests)
+            p = leanio._run(["lake", "env", "lean", "--run", path], timeout=1800, input=payload)
+            outs = [json.loads(l) for l in p.stdout.splitlines() if l.startswith("[")]
+            if p.returncode != 0 or len(outs) != len(requests):
+                raise first
+            return outs
+        finally:
+            shutil.rmtree(d, ignore_errors=True)
+
+
 def evaluate(cases: list[dict], with_lean: bool = True) -> dict:
     """Run cases, judge them, (optionally) compare with the Lean model. Pure function of the cases."""
     observations = run_cases(cases)
@@ -1512,7 +1566,7 @@ def evaluate(cases: list[dict], with_lean: bool = True) -> dict:
         reqs += lr
     if with_lean and reqs:
         try:
-            answers = leanio.Driver().ask(reqs)
+            answers = ask_lean(reqs)
         except leanio.LeanError as e:
             res["lean_error"] = f"{e}: {e.log[-1500:]}"
             return res
@@ -1621,7 +1675,7 @@ def _status_table(ctx: Ctx) -> None:
     got = asyncio.run(all_())
     reqs = [["C12.classify", s] for s in range(100, 1001)]
     try:
-        outs = ctx.driver.ask(reqs)
+        outs = ask_lean(reqs)
     except leanio.LeanError as e:
         raise RuntimeError(f"Lean driver failed: {e}: {e.log[-1500:]}")
     names = {"notFound": "not-found", "tooMany": "too-many", "apiError": "api-error"}
@@ -1662,7 +1716,8 @@ def search(ctx: Ctx, broken: list) -> None:
 
 def replay(ctx: Ctx, data: dict) -> None:
     rep = data.get("replay") or {}
-    case = rep.get("case") or (rep.get("input") or {}).get("case") or (rep.get("first") or {}).get("case")
+    case = rep.get("case") or (rep.get("input") or {}).get("case") or (rep.get("first") or {}).get("case") \
+        or data.get("case")          # corpus files carry the case at top level
     if not isinstance(case, dict):
         if "status" in rep:
             _status_table(ctx)
